@@ -7,21 +7,21 @@ import numpy as np
 from mc.build import Labeling, cmp_named, make_bn, named_table, ref_named
 from mc.gen.dags import all_dags, all_ugraphs, is_connected, iso_classes, subsets
 from mc.gen.tables import bn_from_desc
-from mc.markov import LAYOUTS, joint_of, make_fg, make_mn, ref_mn
+from mc.markov import LAYOUTS_X as LAYOUTS, joint_of, make_fg, make_mn, ref_mn
 from mc.ref.discrete import RefFactor
 from mc.ref.graphs import G
 from mc.stats import Stats
 
 EXPLORER = "E1"
 RULE = ("E1: every labelled undirected graph up to the node bound (connected ones for clique-tree targets) x factor layouts "
-        "{one per edge, edges+unary, duplicated equal factors, one per maximal clique} x cardinality vectors x name "
+        "{one per edge, edges+unary, duplicated equal factors, two different factors on one scope, one per maximal clique, a sparse clique cover that leaves maximal cliques without a factor} x cardinality vectors x name "
         "relabelings; every labelled DAG for BN sources. conversions BN->MN, MN->FG, FG->MN, {BN,MN,FG}->JT, "
         "triangulate (H1-H6, every explicit elimination order, in/out of place). oracle: pointwise product of all source "
         "factors == product of target potentials on every named assignment (so a factor used twice or never is caught), "
         "partition function, state names of every clique variable, target's own check_model, tree/RIP/coverage, own "
         "chordality test (no induced cycle of length>=4). non-trivial = distinct (graph, layout) with a duplicated factor, a "
         "fill-in edge, or >=2 cliques")
-BOUNDS = {"quick": "undirected graphs n<=4 (64 labelled, 38 connected) x 4 layouts x 2 card vectors; BNs: all DAGs n<=4 (JT on connected moral graphs); "
+BOUNDS = {"quick": "undirected graphs n<=4 (64 labelled, 38 connected) x 6 layouts x 2 card vectors; BNs: all DAGs n<=4 (JT on connected moral graphs); "
                    "n=5: the 728 connected graphs, edge layout, to_junction_tree only",
           "thorough": "adds all 1024 labelled graphs on 5 nodes for triangulate/factor graph, 3 relabelings of every n=4 case, every conversion on the 728 connected "
                       "5-node graphs x the 4 other layouts, all 29281 labelled 5-node DAGs as BN sources, clique trees of all 26704 connected 6-node graphs"}
@@ -285,7 +285,8 @@ def _mn(st, g, jt_only=False, tri_only=False):
                 st.compared += 1
                 if abs(zb - float(Z)) > 1e-9 * float(Z):
                     st.violation("FactorGraph.to_markov_model", "distribution-changed", case("FactorGraph.to_markov_model", "distribution-changed", hand=True), zb, float(Z))
-                if conn:
+                # a factor graph is connected through its factor scopes (the sparse layout leaves graph edges without a factor)
+                if is_connected(n, [p for f in facs for p in combinations(f.vars, 2)]):
                     st.evals += 1
                     jt = fg2.to_junction_tree()
                     check_jt(st, "FactorGraph.to_junction_tree", case("FactorGraph.to_junction_tree", "x"), jt, lab, n, card, facs, None)
